@@ -1821,10 +1821,38 @@ public:
 
   disjunctive_linear_constraint_system_t
   to_disjunctive_linear_constraint_system() const override {
-    disjunctive_linear_constraint_system_t res;
-    res += m_product.first().to_disjunctive_linear_constraint_system();
-    res += m_product.second().to_disjunctive_linear_constraint_system();
-    return res;
+    // The value is the conjunction of the Boolean and the numerical
+    // part: add the Boolean constraints to each numerical disjunct.
+    if (is_bottom()) {
+      return disjunctive_linear_constraint_system_t(true /*is_false*/);
+    }
+    linear_constraint_system_t bool_csts;
+    for (auto const &c : m_product.first().to_linear_constraint_system()) {
+      if (!c.is_tautology()) {
+	bool_csts += c;
+      }
+    }
+    disjunctive_linear_constraint_system_t num_csts =
+      m_product.second().to_disjunctive_linear_constraint_system();
+    if (num_csts.is_false()) {
+      return num_csts;
+    } else if (num_csts.is_true()) {
+      if (bool_csts.is_true()) {
+	return disjunctive_linear_constraint_system_t(false /*is_false*/);
+      } else {
+	return disjunctive_linear_constraint_system_t(bool_csts);
+      }
+    } else {
+      disjunctive_linear_constraint_system_t res;
+      for (auto const &csts : num_csts) {
+	linear_constraint_system_t conj(csts);
+	if (!bool_csts.is_true()) {
+	  conj += bool_csts;
+	}
+	res += conj;
+      }
+      return res;
+    }
   }
 
   std::string domain_name() const override { return m_product.domain_name(); }
